@@ -176,6 +176,18 @@ def gen_item(rng, idx, debug=False):
             # shared attribute: placeholders over `_variant` and field names common to the variants
             shared_fields = vs[0]["fields"] if vs and rng.random() < 0.5 else {"kind": "unit", "list": []}
             a = gen_attr(rng, shared_fields, trait, extra_names=["_variant"] * 3, p_bare=0.3)
+            if rng.random() < 0.65:
+                l = F.TYPE_LETTER[trait]
+                own = "{_variant:%s}" % l if l else "{_variant}"
+                a = rng.choice([
+                    F.mk_attr("{_variant}"), F.mk_attr("<{_variant}>"), F.mk_attr("{_variant}: {}", [(None, "1 + 1")]),
+                    F.mk_attr("[{}]", [(None, "_variant")]), F.mk_attr("dflt"), F.mk_attr("{_variant:?}"),
+                    F.mk_attr("{_variant:>5}"), F.mk_attr("{0}", [(None, "_variant")]), F.mk_attr("{x}", [("x", "_variant")]),
+                    F.mk_attr("{x} {x:?}", [("x", "_variant")]), F.mk_attr(own), F.mk_attr("{}", [(None, "_variant")]),
+                    F.mk_attr("{_variant }"), F.mk_attr("{_variant}{_variant}"), F.mk_attr("{}", [(None, "1")]),
+                    F.mk_attr("{_variant}", [("_variant", "1")]), F.mk_attr("{0} {_variant}", [(None, "_variant")]),
+                    F.mk_attr("{}", [(None, "_variant.len()")]), F.mk_attr("{_variant:}"), F.mk_attr("{_variant:.*}", [(None, "2")]),
+                ])
             it["container"]["fmt"] = a
     return it
 
@@ -428,3 +440,100 @@ def real_debug_arm_bodies(it, body):
     if c and c[0] == "match":
         return [b for (_, b) in c[2]]
     return [c]
+
+
+# ------------------------------------------------------------------ shared driver for the C02/C04/C05/C07 checks
+
+def decision_tie(chk, n_display, n_debug, focus=None):
+    """model vs real expander on generated items; reports `tie-fmt-model` violations; returns the result lists"""
+    rng = chk.rng
+    items = [gen_item(rng, i) for i in range(n_display)]
+    if focus == "enum":
+        items = [it for it in items if it["kind"] == "enum"] + [gen_item(rng, 10 ** 6 + i) for i in range(n_display // 2)]
+        items = [it for it in items if it["kind"] == "enum"]
+    res = compare_display(chk, items, chk.tier)
+    n_ok = 0
+    for r in res:
+        it = r["item"]
+        real = real_display(r["resp"])
+        key = ("display", r["src"])
+        shapes = set()
+        if real[0] == "err":
+            chk.count(key, True)
+            chk.bump("display:rejected")
+            if r["m_err"] != real[1]:
+                chk.violation("tie-fmt-model", {"item": r["src"], "derive": it["trait"], "real": str(real[1]), "model": str(r["m_err"])},
+                              "Display-like model and code disagree on the diagnostic for: %s" % r["src"])
+            continue
+        if real[0] != "ok":
+            chk.violation("expander-internal-failure", {"item": r["src"], "derive": it["trait"], "real": str(real[1])},
+                          "the real expander failed internally on: %s" % r["src"])
+            continue
+        rb = real_arm_bodies(it, real[1])
+        for b in rb:
+            if b:
+                shapes.add(b[0])
+        for sname in shapes:
+            chk.bump("display:body:" + sname)
+        chk.count(key, bool(shapes - {"write_str"}))
+        if r["m_err"] is not None or rb != r["m_bodies"]:
+            chk.violation("tie-fmt-model", {"item": r["src"], "derive": it["trait"], "real": str(rb), "model": str((r["m_err"], r["m_bodies"]))},
+                          "Display-like model and code disagree on the body for: %s" % r["src"])
+            continue
+        if real[2] != r["m_bounds"]:
+            chk.violation("tie-fmt-model-bounds", {"item": r["src"], "derive": it["trait"], "real": real[2], "model": r["m_bounds"]},
+                          "Display-like model and code disagree on the inferred bounds for: %s" % r["src"])
+            continue
+        n_ok += 1
+    ditems = [gen_item(rng, i, debug=True) for i in range(n_debug)]
+    dres = compare_debug(chk, ditems, chk.tier)
+    for r in dres:
+        it = r["item"]
+        real = real_display(r["resp"])
+        key = ("debug", r["src"])
+        if real[0] == "err":
+            chk.count(key, True)
+            chk.bump("debug:rejected")
+            if r["m_err"] != real[1]:
+                chk.violation("tie-fmt-model", {"item": r["src"], "derive": "Debug", "real": str(real[1]), "model": str(r["m_err"])},
+                              "Debug model and code disagree on the diagnostic for: %s" % r["src"])
+            continue
+        if real[0] != "ok":
+            chk.violation("expander-internal-failure", {"item": r["src"], "derive": "Debug", "real": str(real[1])},
+                          "the real expander failed internally on: %s" % r["src"])
+            continue
+        rb = real_debug_arm_bodies(it, real[1])
+        for b in rb:
+            if b:
+                chk.bump("debug:body:" + b[0])
+        chk.count(key, True)
+        if r["m_err"] is not None or rb != r["m_bodies"]:
+            chk.violation("tie-fmt-model", {"item": r["src"], "derive": "Debug", "real": str(rb), "model": str((r["m_err"], r["m_bodies"]))},
+                          "Debug model and code disagree on the body for: %s" % r["src"])
+            continue
+        if real[2] != r["m_bounds"]:
+            chk.violation("tie-fmt-model-bounds", {"item": r["src"], "derive": "Debug", "real": real[2], "model": r["m_bounds"]},
+                          "Debug model and code disagree on the inferred bounds for: %s" % r["src"])
+            continue
+        n_ok += 1
+    chk.cov["traces_validated_against_impl"] += len(res) + len(dres)
+    return res, dres
+
+
+def finish_with_proofs(chk, st, rule, trusted, extra=None):
+    if getattr(chk, "proof_broken", False) and not chk.violations:
+        chk.violation("proof-broken", chk.proof_failure, "a proof obligation of %s no longer checks: %s" %
+                      (chk.pid, chk.proof_failure["failed"]), no_input=True)
+    elif getattr(chk, "proof_broken", False):
+        chk.notes.append("proof obligation broken at %s; failing inputs found by the differential run" % chk.proof_failure["failed"])
+    return chk.finish(proof=st, rule=rule, trusted=trusted, extra=extra)
+
+
+FMT_TRUSTED = [
+    "Coq 8.16.1 kernel + vm_compute (full .vo build); no axioms (Print Assumptions: closed)",
+    "hand-written Gallina models coq/theories/Fmt/Model.v + C03/{DmParse,StdParse}.v, tied to impl/src/fmt/*.rs by differential runs "
+    "(cases.v + vm_compute vs the in-process harness: bodies, bounds, diagnostics)",
+    "Layer-2 semantics of emitted Rust (Trait::fmt(x, f) hands the caller's Formatter on; write!/format_args! ignore it; &T formats "
+    "like T except for Pointer): assumed in Coq, exercised against rustc-compiled real expansions on every run",
+    "tools/lib/{fmtitems,fmtcheck,fmtrt}.py generators/canonicalisers; harness/inproc (syn-based body summary); rustc 1.95",
+]
